@@ -1555,13 +1555,14 @@ Proof.
 Qed.
 
 Lemma encodes_custom_begin t ct cs :
-  t < 256 -> ct < two64 -> chunks_wf 8 (map merge cs) -> rchunks_data_wf cs ->
+  t < 256 -> t <> cbeAT_CustomText -> ct < two64 -> chunks_wf 8 (map merge cs) -> rchunks_data_wf cs ->
   encodes (ECustomBegin t ct :: raw_chunk_events cs) (enc_custom_begin ct ++ enc_chunks (map merge cs)).
 Proof.
-  intros Ht Hc Hwf Hd.
+  intros Ht Hnt Hc Hwf Hd.
   apply (encodes_app [ECustomBegin t ct] (raw_chunk_events cs)).
   - apply encodes_one. intros st _. eexists. split.
-    + unfold cbe_encode_event, guard. apply N.ltb_lt in Ht. rewrite Ht, is_u64_true by exact Hc. reflexivity.
+    + unfold cbe_encode_event, guard. apply N.ltb_lt in Ht. apply N.eqb_neq in Hnt.
+      rewrite Ht, Hnt, is_u64_true by exact Hc. reflexivity.
     + reflexivity.
   - apply enc_later_chunks; [exact Hd | apply counts_u64; eapply chunks_wf_counts; exact Hwf].
 Qed.
@@ -1904,7 +1905,7 @@ Proof.
       rewrite is_u64_true by exact Hc64. rewrite wfb_of_wf by exact Hw. cbn [andb enc_chunks whole_chunks].
       rewrite app_nil_r. reflexivity.
     + rewrite chunk_events_raw. rewrite <- (map_merge_unmerge (whole_chunks (len data) data)) at 2.
-      apply encodes_custom_begin; [reflexivity | exact Hc64 | rewrite map_merge_unmerge; exact Hwf|].
+      apply encodes_custom_begin; [reflexivity | discriminate | exact Hc64 | rewrite map_merge_unmerge; exact Hwf|].
       apply unmerge_data_wf. repeat constructor. exact Hw.
     + right. split; [unfold enc_custom_begin; discriminate|]. apply tok_custom; assumption.
 Qed.
@@ -1925,7 +1926,7 @@ Inductive wf_unit : list event -> Prop :=
     bytes_wf mt -> len mt <= media_type_max_length -> chunks_wf 8 (map merge cs) -> rchunks_data_wf cs ->
     wf_unit (EMediaBegin mt :: raw_chunk_events cs)
 | wu_custom t ct cs :
-    t < 256 -> ct <= custom_type_max -> chunks_wf 8 (map merge cs) -> rchunks_data_wf cs ->
+    t < 256 -> t <> cbeAT_CustomText -> ct <= custom_type_max -> chunks_wf 8 (map merge cs) -> rchunks_data_wf cs ->
     wf_unit (ECustomBegin t ct :: raw_chunk_events cs).
 
 Inductive wf_body : list event -> Prop :=
@@ -1944,7 +1945,7 @@ Variable cfg : dcfg.
 
 Theorem unit_roundtrip es : wf_unit es -> exists B norm, unit_ok cfg es B norm.
 Proof.
-  intro H. destruct H as [e He | t cs Ht Hwf Hd | mt cs Hm Hl Hwf Hd | t ct cs Ht Hc Hwf Hd].
+  intro H. destruct H as [e He | t cs Ht Hwf Hd | mt cs Hm Hl Hwf Hd | t ct cs Ht Hnt Hc Hwf Hd].
   - destruct (simple_unit cfg e He) as [B U]. eauto.
   - destruct (arr_ok_header t Ht) as [hd Hh].
     exists (array_bytes t hd (map merge cs)), (array_norm t (map merge cs)). split; [|split].
@@ -1963,7 +1964,7 @@ Proof.
     split; [|split].
     + apply encodes_custom_begin; assumption.
     + rewrite chunk_events_raw. rewrite <- (map_merge_unmerge (map merge cs)) at 2.
-      apply encodes_custom_begin; [reflexivity | exact Hc64 | rewrite map_merge_unmerge; exact Hwf|].
+      apply encodes_custom_begin; [reflexivity | discriminate | exact Hc64 | rewrite map_merge_unmerge; exact Hwf|].
       apply unmerge_data_wf. apply merged_data_wf. exact Hd.
     + right. split; [unfold enc_custom_begin; discriminate | apply tok_custom; assumption].
 Qed.
@@ -2216,7 +2217,7 @@ Fixpoint wf_bodyb (fuel : nat) (es : list event) : bool :=
       | ECustomBegin t ct :: r =>
           match take_chunks (S (length r)) r with
           | Some (cs, r') =>
-              (t <? 256) && (ct <=? custom_type_max) && chunks_wfb 8 (map merge cs) &&
+              (t <? 256) && negb (t =? cbeAT_CustomText) && (ct <=? custom_type_max) && chunks_wfb 8 (map merge cs) &&
               rchunks_data_wfb cs && wf_bodyb f r'
           | None => false
           end
@@ -2250,9 +2251,9 @@ Proof.
     destruct (take_chunks (S (length r)) r) as [[cs r']|] eqn:E; [|discriminate].
     destruct (take_chunks_spec _ _ _ _ E) as [E1 _].
     apply andb_true_iff in H as [H H5]. apply andb_true_iff in H as [H H4]. apply andb_true_iff in H as [H H3].
-    apply andb_true_iff in H as [H1 H2].
+    apply andb_true_iff in H as [H H2]. apply andb_true_iff in H as [H1 H1'].
     rewrite E1. apply (wb_app (ECustomBegin t ct :: raw_chunk_events cs) r'); [|apply IH; exact H5].
-    apply wu_custom; [apply N.ltb_lt; exact H1 | apply N.leb_le; exact H2 | apply chunks_wfb_sound; exact H3 |
+    apply wu_custom; [apply N.ltb_lt; exact H1 | apply N.eqb_neq, negb_true_iff; exact H1' | apply N.leb_le; exact H2 | apply chunks_wfb_sound; exact H3 |
                       apply rchunks_data_wfb_sound; exact H4].
 Qed.
 
